@@ -96,6 +96,10 @@ def body(ctx):
                 plan.append("ln broadcast %s 0 %s - - %s" % (t, rows[0], wrow(w)))
                 plan.append("ln ctor_bcast %s 0 %s - - %s" % (t, rows[0], wrow(w)))
                 plan.append("ln get %s 0 %s - - %s" % (t, rows[0], wrow(w)))
+                for r in rows:
+                    plan.append("ln ctor_list %s 0 %s - - %s" % (t, r, wrow(w)))
+                for _ in range(ctx.q(2, 8)):
+                    plan.append("ln bool_ctor_list %s 0 %s - - %s" % (t, bytes(rng.getrandbits(1) for _ in range(n)).ljust(64, b"\0").hex(), wrow(w)))
         # converting gather / scatter: a table of n elements of another type, converted on access (C06 meaning per element)
         import struct
         for t, nb, u, nu in (("f32", 4, "f64", 8), ("i32", 4, "f64", 8), ("f64", 8, "f32", 4), ("i64", 8, "f32", 4)):
